@@ -1411,6 +1411,45 @@ static void families(const std::string &prop, const std::string &tier)
                 r.ra = atoms;
                 g_specs.push_back(r); });
     }
+    // (F) fan-out (quick tier only; the thorough tier has every 2-subset of the clause pool anyway): two binary clauses
+    // with the same trigger literal, (!t | u) and (!t | v), over each theory block, so that ONE assignment puts several
+    // theory literals into the propagation queue at once and a theory conflict can arrive while others are pending
+    if (!th)
+    {
+      std::vector<LAtom> latoms = {LA({1, 0}, 0, 1), LA({1, 0}, 2, 2), LA({1, 1}, 0, 2), LA({0, 1}, 3, 1)};
+      std::vector<DAtom> datoms = {{1, 2, Q(-1)}, {2, 3, Q(-1)}, {3, 1, Q(1)}, {1, 2, Q(1)}};
+      for (int t = 1; t <= 5; ++t)
+        for (int st = -1; st <= 1; st += 2)
+          for (int u = 1; u <= 5; ++u)
+            for (int su = -1; su <= 1; su += 2)
+              for (int v = u + 1; v <= 5; ++v)
+                for (int sv = -1; sv <= 1; sv += 2)
+                {
+                  if (u == t || v == t)
+                    continue;
+                  std::vector<std::vector<int>> cls = {{-st * t, su * u}, {-st * t, sv * v}};
+                  Spec l;
+                  l.nb = 1;
+                  l.nlra = 2;
+                  l.la = latoms;
+                  l.cl = cls;
+                  l.depth = 3;
+                  g_specs.push_back(l);
+                  Spec i;
+                  i.nb = 1;
+                  i.nidl = 3;
+                  i.ia = datoms;
+                  i.cl = cls;
+                  i.depth = 3;
+                  g_specs.push_back(i);
+                  Spec r = i;
+                  r.nidl = 0;
+                  r.ia.clear();
+                  r.nrdl = 3;
+                  r.ra = datoms;
+                  g_specs.push_back(r);
+                }
+    }
   }
   else if (prop == "C09")
   {
@@ -1527,6 +1566,35 @@ static void families(const std::string &prop, const std::string &tier)
         r.alphabet = "Ap";
         g_specs.push_back(r);
       }
+    }
+    // (F) fan-out: 1 boolean + 4 atoms on a 3-cycle with a repeated pair and two binary clauses with the same trigger
+    // literal, (!t | u) and (!t | v): one assignment queues several theory literals, so that a conflict raised by
+    // propagate() arrives while others are still pending
+    {
+      std::vector<DAtom> datoms = {{1, 2, Q(-1)}, {2, 3, Q(-1)}, {3, 1, Q(1)}, {1, 2, Q(1)}};
+      for (int t = 1; t <= 5; ++t)
+        for (int st = -1; st <= 1; st += 2)
+          for (int u = 1; u <= 5; ++u)
+            for (int su = -1; su <= 1; su += 2)
+              for (int v = u + 1; v <= 5; ++v)
+                for (int sv = -1; sv <= 1; sv += 2)
+                {
+                  if (u == t || v == t)
+                    continue;
+                  Spec i;
+                  i.nb = 1;
+                  i.nidl = 3;
+                  i.ia = datoms;
+                  i.cl = {{-st * t, su * u}, {-st * t, sv * v}};
+                  i.depth = th ? 4 : 3;
+                  g_specs.push_back(i);
+                  Spec r = i;
+                  r.nidl = 0;
+                  r.ia.clear();
+                  r.nrdl = 3;
+                  r.ra = datoms;
+                  g_specs.push_back(r);
+                }
     }
     if (th)
     { // half-integer constants for RDL on a reduced pool
